@@ -1018,7 +1018,13 @@ def build_unit(template, repo, out_rs, out_map):
             else:
                 origin = 'blank'
             out.append((l, origin))
-        functions.append({'kind': item['kind'], 'file': item['file'], 'name': item['name'], 'src_line': line,
+        first_loop = None
+        if item['kind'] == 'fn':
+            for li, (l, origs) in enumerate(olines):
+                if 'repo' in origs and re.match(r'\s*(?:\'\w+\s*:\s*)?(for|while|loop)\b', l):
+                    first_loop = first_out + li
+                    break
+        functions.append({'kind': item['kind'], 'file': item['file'], 'name': item['name'], 'src_line': line, 'first_loop_line': first_loop,
                           'src_end_line': line + text.count('\n'), 'sha256': sha, 'tags': item['tags'],
                           'out_first': first_out, 'out_last': len(out), 'mode': item['mode'],
                           'clauses': count_clauses(item), 'degraded': degraded if item['kind'] == 'fn' else None,
@@ -1094,6 +1100,8 @@ def auto_consts(out, functions, repo, log):
             if f['out_first'] > first:
                 f['out_first'] += len(ins)
                 f['out_last'] += len(ins)
+                if f.get('first_loop_line'):
+                    f['first_loop_line'] += len(ins)
     return out
 
 
